@@ -4,6 +4,7 @@ import (
 	"fmt"
 	"go/token"
 	"go/types"
+	"reflect"
 	"sort"
 	"strings"
 
@@ -20,7 +21,7 @@ func init() {
 		Doc:  "name lower-casing dataflow; defaults-before-call option order; nil option / nil value guards; tag writer/reader agreement; signature rejections; struct walk",
 		Run:  runOpts,
 		Floor: map[string]int{
-			"LOWER": 4, "OPTORDER": 4, "NILOPT": 2, "NILOPT-F": 3, "REFLVALID": 3, "TAGS": 4, "REJECT": 8, "STRUCTWALK": 6,
+			"LOWER": 4, "OPTORDER": 4, "NILOPT": 2, "NILOPT-F": 3, "REFLVALID": 5, "TAGS": 5, "OPTDELEG": 2, "REJECT": 8, "STRUCTWALK": 6,
 		},
 	})
 }
@@ -423,6 +424,9 @@ func runOpts(c *Ctx) {
 		}
 	}
 
+	// =============== OPTDELEG: delegation between option constructors keeps the labels
+	c.runOptDeleg()
+
 	// =============== NILOPT-F: no nil *Func enters a converter list (the graph builders dereference every entry)
 	c.runNilFunc()
 
@@ -563,6 +567,48 @@ func runOpts(c *Ctx) {
 			c.R.Add("REFLVALID", fmt.Sprintf("%s|reflect.ValueOf#%d", core.FuncName(f), countCalls(f, cl)), core.FuncName(f), p.InstrPos(cl), bad == "",
 				"a reflect.Value made from a caller-supplied interface value is used (Type, stored as an input, …) only where IsValid() holds: nil values are ignored or rejected, never dereferenced",
 				ternary(bad == "", "all uses guarded", bad))
+		})
+	}
+
+	// reflect.Type.Implements panics unless its argument is an interface type: every call is dominated by the
+	// kind test of that very argument (or the argument is the error type descriptor)
+	nImpl := 0
+	for _, f := range p.ArgFuncs() {
+		core.Instrs(f, func(in ssa.Instruction) {
+			cl, ok := in.(*ssa.Call)
+			if !ok || !cl.Common().IsInvoke() || cl.Common().Method.Name() != "Implements" || core.TypeStr(cl.Common().Value.Type()) != "reflect.Type" || len(cl.Common().Args) != 1 {
+				return
+			}
+			nImpl++
+			arg := cl.Common().Args[0]
+			ap := core.Path(arg)
+			okk := false
+			var seen []string
+			for _, l := range p.ExpandLitsKeep(core.Lits(core.Guards(cl.Block()))) {
+				if l.Kind != "cmp" || l.Op != token.EQL || !l.Pol {
+					continue
+				}
+				for _, pr := range [][2]ssa.Value{{l.X, l.Y}, {l.Y, l.X}} {
+					kc, isC := pr[0].(*ssa.Call)
+					if !isC || !kc.Common().IsInvoke() || kc.Common().Method.Name() != "Kind" {
+						continue
+					}
+					if k, isK := core.ConstInt(pr[1]); !isK || k != int64(reflect.Interface) {
+						continue
+					}
+					seen = append(seen, core.Path(kc.Common().Value))
+					if kc.Common().Value == arg || core.Path(kc.Common().Value) == ap {
+						okk = true
+					}
+				}
+			}
+			if g, isG := loadBase(arg).(*ssa.Global); isG && interfaceDescriptor(g) {
+				okk = true
+			}
+			c.R.Func(core.FuncName(f))
+			c.R.Add("REFLVALID", fmt.Sprintf("%s|Implements#%d", core.FuncName(f), nImpl), core.FuncName(f), p.InstrPos(cl), okk,
+				"reflect.Type.Implements is called only with an argument whose Kind() was tested to be Interface on the way (it panics for any other type)",
+				ternary(okk, "argument "+ap+" kind-tested", fmt.Sprintf("argument %s not kind-tested (kind tests on: %v)", ap, seen)))
 		})
 	}
 
@@ -1077,6 +1123,57 @@ func (c *Ctx) runTags(walker *ssa.Function) {
 	}
 	c.R.Add("TAGS", "reader|options-from-rest", "structWalker", p.InstrPos(split), fromRest && sep == ",",
 		"options are parsed from every comma-separated part after the first", fmt.Sprintf("sep=%q updates=%d from-parts[1:]=%v", sep, len(optUpdates), fromRest))
+	// an option part is cut into key and value at the FIRST '=': the value may itself contain the separator
+	{
+		first := map[string]bool{"strings.Index": true, "strings.IndexByte": true, "strings.IndexRune": true, "strings.Cut": true, "strings.SplitN": true, "strings.IndexAny": true}
+		other := map[string]bool{"strings.LastIndex": true, "strings.LastIndexByte": true, "strings.LastIndexAny": true, "strings.Split": true, "strings.SplitAfter": true, "strings.SplitAfterN": true}
+		scope := []*ssa.Function{parser}
+		for _, cal := range p.StaticCallees(parser) {
+			if cal.Pkg != nil && cal.Pkg == parser.Pkg {
+				scope = append(scope, cal)
+			}
+		}
+		nFirst, bad := 0, ""
+		var at ssa.Instruction = split
+		for _, g := range scope {
+			core.Instrs(g, func(in ssa.Instruction) {
+				cl, ok := in.(*ssa.Call)
+				if !ok || len(cl.Common().Args) < 2 {
+					return
+				}
+				name := core.CalleeName(cl.Common())
+				if !first[name] && !other[name] {
+					return
+				}
+				isEq := false
+				if s, ok := core.ConstString(cl.Common().Args[1]); ok && s == "=" {
+					isEq = true
+				} else if k, ok := core.ConstInt(cl.Common().Args[1]); ok && k == '=' {
+					isEq = true
+				}
+				if !isEq {
+					return
+				}
+				if first[name] {
+					if name == "strings.SplitN" {
+						if k, ok := core.ConstInt(cl.Common().Args[2]); !ok || k != 2 {
+							bad, at = name+" with a limit other than 2", in
+							return
+						}
+					}
+					nFirst++
+					return
+				}
+				bad, at = name, in
+			})
+		}
+		if nFirst == 0 && bad == "" {
+			c.R.Undecided("TAGS", "reader|option-cut-at-first-separator", "structWalker", p.InstrPos(split), "no recognised search for the '=' of an option part (different parser: undecidable by this rule)")
+		} else {
+			c.R.Add("TAGS", "reader|option-cut-at-first-separator", "structWalker", p.InstrPos(at), bad == "" && nFirst > 0,
+				"an option part is cut into key and value at its first '=' (the writers put the separator first and the subtype, which may contain '=', after it)", ternary(bad == "", fmt.Sprintf("%d first-occurrence search(es)", nFirst), "located with "+bad))
+		}
+	}
 	c.R.Add("TAGS", "reader|options-independent-of-rename", "structWalker", p.InstrPos(split), condOnName == "",
 		"options are parsed whether or not the tag also renames the field", ternary(condOnName == "", "unconditional", "option parsing guarded by "+condOnName))
 }
@@ -1958,4 +2055,50 @@ func (c *Ctx) markerFieldPredicate() *ssa.Function {
 		}
 	}
 	return nil
+}
+
+// interfaceDescriptor: the package variable is initialised once, in the package initialiser, to
+// reflect.TypeOf((*I)(nil)).Elem() for an interface type I.
+func interfaceDescriptor(g *ssa.Global) bool {
+	if g.Pkg == nil {
+		return false
+	}
+	init := g.Pkg.Func("init")
+	if init == nil {
+		return false
+	}
+	n, ok := 0, false
+	for _, mem := range g.Pkg.Members {
+		f, isF := mem.(*ssa.Function)
+		if !isF {
+			continue
+		}
+		for _, h := range core.WithNested(f) {
+			core.Instrs(h, func(in ssa.Instruction) {
+				st, isS := in.(*ssa.Store)
+				if !isS || st.Addr != ssa.Value(g) {
+					return
+				}
+				n++
+				el, isC := st.Val.(*ssa.Call)
+				if !isC || !el.Common().IsInvoke() || el.Common().Method.Name() != "Elem" || h != init {
+					return
+				}
+				to, isC := el.Common().Value.(*ssa.Call)
+				if !isC || core.CalleeName(to.Common()) != "reflect.TypeOf" {
+					return
+				}
+				mi, isM := to.Common().Args[0].(*ssa.MakeInterface)
+				if !isM {
+					return
+				}
+				if pt, isP := mi.X.Type().Underlying().(*types.Pointer); isP {
+					if _, isI := pt.Elem().Underlying().(*types.Interface); isI {
+						ok = true
+					}
+				}
+			})
+		}
+	}
+	return ok && n == 1
 }
